@@ -85,6 +85,12 @@ def gen_cases(rng, thorough):
         t = faces.random_pairing(rng, nf, p_link=rng.choice([0.5, 0.8, 1.0]))
         c = {"nfaces": nf, "axes": AXES, "table": t, "nfacedims": 1, "facedim_in_ds": True}
         r = rng.random()
+        if r > 0.85 and t:
+            # one face renumbered throughout: beyond the face dimension, or to the negative number that positional
+            # indexing would wrap back to it
+            f = rng.randrange(nf)
+            g = rng.choice([nf + rng.randint(0, 2), f - nf])
+            c["table"] = [[g if e[0] == f else e[0], e[1], e[2], g if e[3] == f else e[3], e[4], e[5]] for e in t]
         if r < 0.08:
             c["nfacedims"] = 2
         elif r < 0.16:
